@@ -149,7 +149,7 @@ func TestWorker(t *testing.T) {
 	}
 	isKnown := func(sig string) bool {
 		for _, p := range knownPats {
-			if p == sig || (strings.HasSuffix(p, "*") && strings.HasPrefix(sig, strings.TrimSuffix(p, "*"))) {
+			if p == sig || globMatch(p, sig) {
 				return true
 			}
 		}
@@ -482,4 +482,24 @@ func TestSurvey(t *testing.T) {
 		fmt.Printf("SURVEY %-70s %6d  first=%d\n", k, cnt[k], first[k])
 	}
 	fmt.Println("outcomes", outcomes)
+}
+
+// globMatch: '*' in the pattern matches any run of characters.
+func globMatch(pat, s string) bool {
+	if !strings.Contains(pat, "*") {
+		return pat == s
+	}
+	parts := strings.Split(pat, "*")
+	if !strings.HasPrefix(s, parts[0]) {
+		return false
+	}
+	s = s[len(parts[0]):]
+	for i := 1; i < len(parts)-1; i++ {
+		j := strings.Index(s, parts[i])
+		if j < 0 {
+			return false
+		}
+		s = s[j+len(parts[i]):]
+	}
+	return strings.HasSuffix(s, parts[len(parts)-1])
 }
